@@ -153,9 +153,12 @@ pub fn storm_breaker(world: &World) {
     if n + 1 >= 20_000 {
         STORM.with(|s| s.set((now, 0)));
         if world.inner.borrow().session_start.is_some() {
+            // the step doubles while nothing else makes progress (a stalled disk holds a lock for seconds)
+            let (_, stalled_so_far) = STORM_STALL.with(|s| s.get());
+            let step_ms = 1u64 << stalled_so_far.min(10);
             let waker = futures::task::noop_waker();
             let mut cx = Context::from_waker(&waker);
-            let mut f = Box::pin(tokio::time::advance(Duration::from_millis(1)));
+            let mut f = Box::pin(tokio::time::advance(Duration::from_millis(step_ms)));
             let _ = f.as_mut().poll(&mut cx);
             world.probe("forced_clock_advance_busy_wait");
             // no I/O event and no completed operation for 200 forced advances (4 million polls):
@@ -165,8 +168,13 @@ pub fn storm_breaker(world: &World) {
                 w.seq + w.reads + w.next_job
             };
             let (last, stalled) = STORM_STALL.with(|s| s.get());
+            let job_pending = world.inner.borrow().jobs_in_flight > 0;
             if progress != last {
                 STORM_STALL.with(|s| s.set((progress, 0)));
+            } else if job_pending && stalled < 150 {
+                // somebody waits for a simulated I/O latency: time has to pass, nothing is stuck yet
+                // (150 doubling steps cover more than two simulated minutes)
+                STORM_STALL.with(|s| s.set((last, stalled + 1)));
             } else if stalled + 1 >= 200 {
                 STORM_STALL.with(|s| s.set((progress, 0)));
                 world.hung_flag.set(true);
